@@ -160,7 +160,7 @@ class Net(object):
         self.delay_max   = 0.0     # max per-delivery latency
         self.link_faults = dict()  # channel name -> dict(kind -> prob)
         self.bulk_max    = 1024
-        self.partitions  = set()   # sides currently cut off from proxy
+        self.partitions  = dict()  # side -> virtual time of heal
 
     def __deepcopy__(self, memo):
         return self
@@ -294,6 +294,15 @@ class Publisher(object):
                 if delay:
                     sim.fault('delay')
             at = max(sim.now + delay, self._last.get(sub, 0.0))
+            if n.partitions and self._bridge.side == 'proxy':
+                # a partitioned side: traffic between it and the proxy is
+                # held (not lost) until the partition heals
+                for who in (self._owner, sub._owner):
+                    side = str(who or '').split(':')[-1]
+                    until = n.partitions.get(side)
+                    if until and until > sim.now:
+                        at = max(at, until)
+                        sim.fault('partition_hold')
             copies = 1
             if faults and sub._faulty:
                 if faults.get('drop') and sub._droppable(msg) \
